@@ -123,7 +123,7 @@ fn diff_strategy() -> impl Strategy<Value = DiffCase> {
 		fill_names(&mut full_b);
 		// one case in six: the diff also adds a class with 40 fields, 40 methods (each with two parameters) - far more
 		// additions than any per-run budget of a few dozen
-		if order % 48 == 0 {
+		if s3.len() % 67 == 13 {
 			let mut c = crate::mapmodel::MClass { names: vec![Some("bulk/Added".into()), Some("bulk/AddedNamed".into())], ..Default::default() };
 			for k in 0..40usize {
 				c.fields.insert(crate::mapmodel::MemberKey::new(&format!("bf{k}"), "I"), crate::mapmodel::MField { names: vec![Some(format!("bf{k}")), Some(format!("f_{k}"))], doc: None });
